@@ -519,6 +519,7 @@ func checkPlotOrder(c *Ctx, rule string, fn *ssa.Function, mapField string) {
 			c.Bad(rule, key, c.Pos(fn.Pos()), "no in-loop checkpoint store found")
 		}
 	}
+	checkWindowTiling(c, rule, fn, ws)
 	// (4) window placement: file offset of the window and the in-loop checkpoint derive from the same loop variable
 	for i, w := range ws {
 		key := fmt.Sprintf("%s:window-offset#%d", name, i+1)
@@ -756,6 +757,8 @@ func checkC07(c *Ctx) Meta {
 	}
 	_ = nRead
 
+	c.Rule("C07-KEEPER", "a proof is served only from a completed table: after a plot run the keeper moves the space to ready or mining only behind `Progress() >= 100` of the plotted space, evaluated after Plot returned (the C10 keeper rule, here as the premise of 'a proof is served whenever one exists')", 2)
+	checkStep3(c, "C07-KEEPER", pkgCapacity, "capacity")
 	checkFreshWindow(c, "C07-FRESH")
 	c.Rule("C07-SIBLING", "the pre-plot pass places a value in map A by the same mapping (comparison with half, doubled / flipped-doubled-plus-one) that map A's own accessors use", 1)
 	checkSlotMappingSiblings(c, "C07-SIBLING")
